@@ -342,11 +342,12 @@ func cmdCheck(args []string) {
 		os.WriteFile(filepath.Join(*root, "evidence", id+".json"), b, 0o644)
 	}
 	fmt.Printf("%s: %d obligations, %d discharged, %d known-finding, %d violations, %d engine faults, %.1fs\n", id, total, discharged, len(knownHit), violations, len(faults), time.Since(t0).Seconds())
-	if len(faults) > 0 {
-		os.Exit(2)
-	}
+	// a named obligation that fails is a violation whether or not other queries also hit an engine problem
 	if violations > 0 {
 		os.Exit(1)
+	}
+	if len(faults) > 0 {
+		os.Exit(2)
 	}
 }
 
